@@ -85,6 +85,8 @@ fn subst_expr(e: &Expr, name: &str, with: &Expr) -> Expr {
                 }
             }
         },
+        // the constant is gone after the substitution, but it was defined
+        Expr::Defined(path) if path.len() == 1 && path[0] == name => Expr::Paren(Box::new(Expr::num(1))),
         Expr::Bin(l, op, r) => Expr::Bin(Box::new(subst_expr(l, name, with)), *op, Box::new(subst_expr(r, name, with))),
         Expr::Paren(i) => Expr::Paren(Box::new(subst_expr(i, name, with))),
         Expr::Neg(i) => {
